@@ -76,6 +76,8 @@ def corpus():
         yield {"kind": k, "children": [["0/1", "0/1", "0/1", "0/1"], ["5/1", "0/1", "0/1", "0/1"]], "ops": [["set", "10/1"]]}
         yield {"kind": k, "children": [["3/1", "1/3", "1/3", "1/1"]] * 4, "ops": [["set", "10/1"], ["add", ["3/1", "1/3", "1/3", "2/1"]], ["set", "10/1"]]}
         yield {"kind": k, "children": [["1/1099511627776", "1/1", "1/1", "0/1"], ["1099511627776/1", "1/2", "1/2", "0/1"]], "ops": [["set", "1000/1"]]}
+        yield {"kind": k, "children": [["2/1", "1/2", "3/4", "0/1"], ["3/1", "1/1", "1/4", "5/1"], ["6/1", "1/4", "1/2", "1/1"]],
+               "sites": ["a", "a", "b", "a"], "ops": [["set", "11/1"], ["add", ["1/1", "1/1", "1/1", "0/1"]], ["set", "6/1"]]}
         yield {"kind": k, "children": [["4/1", "1/2", "1/2", "1/1"]], "ops": [["del", 0], ["set", "3/1"], ["add", ["1/1", "1/1", "0/1", "0/1"]], ["set", "4/1"]]}
 
 
@@ -135,11 +137,17 @@ def gen_cases(rng, n):
                 cur -= 1
         if not ops or ops[-1][0] != "set":
             ops.append(["set", fr(rnd_q(rng))])
-        yield {"kind": kind, "children": children, "ops": ops}
+        case = {"kind": kind, "children": children, "ops": ops}
+        if rng.random() < 0.2:
+            # pools that compare and hash equal (identified by site): some children are equal twins
+            case["sites"] = [rng.choice("abc") for _ in range(rng.randint(2, 6))]
+        yield case
 
 
 # ------------------------------------------------------------------ implementation
-def _mk_child(spec):
+def _mk_child(spec, site=None):
+    """`site`: pools identified by a site name compare (and hash) equal when their sites agree — children
+    are members of a list, equal or not: each is a child of its own"""
     from cobald.interfaces import Pool
 
     class Child(Pool):
@@ -147,6 +155,15 @@ def _mk_child(spec):
 
         def __init__(self, s, u, a, d):
             self._s, self._u, self._a, self._d = s, u, a, d
+            self._site = site
+
+        def __eq__(self, other):
+            if self._site is None or not isinstance(other, Pool):
+                return self is other
+            return getattr(other, "_site", None) == self._site
+
+        def __hash__(self):
+            return id(self) if self._site is None else hash(self._site)
 
         supply = property(lambda self: self._s)
         utilisation = property(lambda self: self._u)
@@ -160,7 +177,7 @@ def _mk_child(spec):
         def demand(self, v):
             self._d = v
 
-    return Child(*[un(x) for x in spec])
+    return Child(*[un(x) for x in spec[:4]])
 
 
 def _observe(comp):
@@ -225,7 +242,13 @@ def run_impl(case):
         return _run_float(case)
     from cobald.composite.weighted import WeightedComposite
     from cobald.composite.uniform import UniformComposite
-    children = [_mk_child(s) for s in case["children"]]
+    sites = case.get("sites")
+    nsite = [0]
+
+    def site():
+        nsite[0] += 1
+        return None if not sites else sites[(nsite[0] - 1) % len(sites)]
+    children = [_mk_child(s, site()) for s in case["children"]]
     try:
         if case["kind"] == "uniform":
             comp = UniformComposite(*children)
@@ -241,7 +264,7 @@ def run_impl(case):
             elif op[0] == "cdemand":
                 comp.children[op[1]].demand = un(op[2])
             elif op[0] == "add":
-                comp.children.append(_mk_child(op[1]))
+                comp.children.append(_mk_child(op[1], site()))
             elif op[0] == "del":
                 del comp.children[op[1]]
             obs.append(_observe(comp))
